@@ -39,7 +39,9 @@ pub fn setup_veth(route: Route6) -> Result<(), String> {
         let _ = std::fs::write(format!("/proc/sys/net/ipv6/conf/{i}/accept_dad"), "0");
         let _ = std::fs::write(format!("/proc/sys/net/ipv6/conf/{i}/accept_ra"), "0");
         let _ = std::fs::write(format!("/proc/sys/net/ipv4/conf/{i}/rp_filter"), "0");
+        let _ = std::fs::write(format!("/proc/sys/net/ipv4/conf/{i}/promote_secondaries"), "0");
     }
+    let _ = std::fs::write("/proc/sys/net/ipv4/conf/all/promote_secondaries", "0");
     let _ = std::fs::write("/proc/sys/net/ipv4/conf/all/rp_filter", "0");
     // a router: with forwarding on, the kernel joins all-routers (ff02::2) on every interface, which
     // is what lets solicitations reach the service's raw socket, as on a production router
@@ -172,6 +174,29 @@ pub fn addr6_add(mon: &mut NlMonitor, addr: &str, len: u8) -> Result<(), String>
 pub fn addr6_del(mon: &mut NlMonitor, addr: &str, len: u8) -> Result<(), String> {
     sh(&format!("ip -6 addr del {addr}/{len} dev {SRV_IF}"))?;
     mon.wait_addr(false, addr.parse().map_err(|e| format!("{addr}: {e}"))?)
+}
+
+/// The IPv4 addresses the kernel itself lists for the advertising interface right now (ground truth
+/// for "an address the interface has", independent of the service's view and of what the harness
+/// thinks its events did -- removing a primary address may remove or promote its secondaries,
+/// depending on a sysctl).
+pub fn kernel_ipv4_addrs() -> Result<Vec<Ipv4Addr>, String> {
+    let o = std::process::Command::new("ip").args(["-4", "-o", "addr", "show", "dev", SRV_IF]).output().map_err(|e| format!("ip addr show: {e}"))?;
+    if !o.status.success() {
+        return Err(format!("ip addr show: {}", String::from_utf8_lossy(&o.stderr).trim()));
+    }
+    let mut out = vec![];
+    for line in String::from_utf8_lossy(&o.stdout).lines() {
+        let mut it = line.split_whitespace();
+        while let Some(w) = it.next() {
+            if w == "inet" {
+                if let Some(a) = it.next().and_then(|x| x.split('/').next()).and_then(|x| x.parse::<Ipv4Addr>().ok()) {
+                    out.push(a);
+                }
+            }
+        }
+    }
+    Ok(out)
 }
 
 /// IPv4 address changes at run time (announced inside the `ip` command's own syscall; one pass
